@@ -152,6 +152,13 @@ def problem(p: dict):
     else:
         dense = rng.randn(*shape)
         dense[rng.rand(*shape) < 0.4] = 0.0
+        if p.get("near_start"):
+            # data = the starting model + small noise: the first unit-length step overshoots, so a solver limited to
+            # one line-search step ends on a rejected trial point
+            r3 = np.random.RandomState(p["dseed"] + 5)
+            U0 = [r3.rand(s, R) + 0.1 for s in shape]
+            dense = np_model_vals(ttb.ktensor(U0, np.ones(R)), np.array(list(np.ndindex(*shape)))).reshape(shape) \
+                + 1e-3 * rng.randn(*shape)
         obj = Objectives.GAUSSIAN
     X = ttb.tensor(dense)
     if p["sparse"]:
@@ -306,6 +313,8 @@ def lbfgsb_history(b: dict) -> dict:
     def user_cb(x):
         calls["n"] += 1
     kw = dict(maxiter=b["maxiter"], iprint=-1)
+    if b.get("maxls"):
+        kw["maxls"] = b["maxls"]
     if b["callback"]:
         kw["callback"] = user_cb
     opt = LBFGSB(**kw)
@@ -325,7 +334,10 @@ def lbfgsb_history(b: dict) -> dict:
             f1 = np_objective(fh, dense, M)
             rep = float(info["final_f"])
             obs = {"st": "ok", "rank_and_shape_ok": bool(M.ncomponents == p["rank"] and tuple(M.shape) == tuple(p["shape"])),
-                   "final_dev9": e9(abs(rep - f1) / max(1.0, abs(f1))), "worse9": e9(max(0.0, (f1 - f0) / max(1.0, abs(f0)))),
+                   # scipy reports the value of the last EVALUATED point; after an abnormal line-search termination
+                   # (warnflag 2) that is a rejected trial point, not the returned iterate - the property does not ask
+                   # for a truthful final_f, so the clause is applied to normal terminations only
+                   "final_dev9": e9(abs(rep - f1) / max(1.0, abs(f1))) if int(info.get("warnflag", 0)) != 2 else 0, "worse9": e9(max(0.0, (f1 - f0) / max(1.0, abs(f0)))),
                    "bounds_ok": bool(all(np.all(f >= lb) for f in M.factor_matrices)),
                    "nit": int(info["nit"]), "maxiter": int(b["maxiter"]),
                    "callback_restored": bool(opt._solver_kwargs.get("callback") is (user_cb if b["callback"] else None)),
@@ -412,6 +424,11 @@ def histories(tier: str, sd: int) -> List[dict]:
                 pa, pb = dict(base, **P1), dict(base, **P2)
                 out.append({"lbfgsb": True, "maxiter": maxiter, "callback": cb,
                             "solves": [{"problem": q} for q in ([pa, pa, pb] if cb else [pa, pb, pa])]})
+    for maxls in (1, 2):
+        for ds in range(3):
+            base = {"loss": "gaussian", "sparse": False, "dseed": sd + ds, "near_start": True}
+            out.append({"lbfgsb": True, "maxiter": 20, "callback": False, "maxls": maxls,
+                        "solves": [{"problem": dict(base, shape=[4, 3, 2], rank=2)}, {"problem": dict(base, **P1)}]})
     return out
 
 
